@@ -229,6 +229,15 @@ func mentionsFresh(fc *FuncContract) bool {
 	return false
 }
 
+// atcallMatches: an atcall clause names its callee either by bare name ("Commit": every callee of that name) or
+// qualified ("(*StateDB).Commit", "state.New": the callee key must end with it).
+func atcallMatches(spec, name, key string) bool {
+	if strings.ContainsAny(spec, ".(") {
+		return strings.HasSuffix(key, spec)
+	}
+	return spec == name
+}
+
 func tagOr(c Clause) string {
 	if c.Tag != "" {
 		return c.Tag
@@ -470,7 +479,7 @@ func (e *Engine) doCall(st *State, call *ssa.CallCommon, fnv Val, args []Val, de
 	pre := st.snapshot()
 	if root.fc != nil {
 		for _, ac := range root.fc.AtCalls {
-			if ac.Kind == "assert" && ac.Callee == name {
+			if ac.Kind == "assert" && atcallMatches(ac.Callee, name, key) {
 				env := e.envFor(st, root, nil)
 				env.preferCells = true
 				for i, p := range params {
@@ -540,7 +549,7 @@ func (e *Engine) doCall(st *State, call *ssa.CallCommon, fnv Val, args []Val, de
 		// ghost updates requested by the function under verification
 		if root.fc != nil {
 			for _, ac := range root.fc.AtCalls {
-				if ac.Kind == "set" && ac.Callee == name {
+				if ac.Kind == "set" && atcallMatches(ac.Callee, name, key) {
 					env := e.envFor(st, root, pre)
 					env.preferCells = true
 					for i, p := range params {
